@@ -198,6 +198,13 @@ def step (st : State) (w : List String) : State × String :=
     | some n => (st, "budgets=" ++ ",".intercalate (List.replicate n "full"))
     | none => (st, "bad-op")
   | ["ing", "end"] => (st, "closed")
+  | ["accept", "new"] => (st, "ok")
+  | ["accept", ks] =>
+    let rs : List AcceptRes := if ks == "-" then [] else (ks.splitOn ",").map fun k =>
+      if k == "timeout" then AcceptRes.err true true
+      else if k == "emfile" || k == "econnaborted" || k == "nettemp" then AcceptRes.err false true
+      else AcceptRes.err false false
+    (st, s!"admitted={boolStr (acceptLoop (rs ++ [.conn]) == 1)}")
   | ["tcpclass", "new"] => (st, "ok")
   | ["tcpclass", l] =>
     match l.toNat? with
